@@ -76,6 +76,17 @@ def strategy(tier):
     })
 
 
+def enumerate_cases(tier):
+    """one very long history per channel - more chunks than a 16 bit counter
+    can number"""
+    cyc = {"app": [b"\x55\xaa\x01"], "term": None, "tx_delay": 0,
+           "ack_check": True}
+    for channel in (1, 2):
+        yield {"channel": channel, "init_delay": 0, "cycles": [cyc],
+               "repeat": 66000, "noise": 0, "stale": 0, "cycles2": None,
+               "order": 0, "terminal": "EL6002"}
+
+
 def run_case(case):
     ec = SimpleEtherCat("verif")
     # both two-channel serial terminals of the library have this process
@@ -102,6 +113,21 @@ def run_case(case):
                 os.close(fd)
             except OSError:
                 pass
+
+
+def brief(b):
+    b = bytes(b)
+    return repr(b) if len(b) <= 48 else \
+        f"{len(b)} bytes {b[:12]!r}...{b[-12:]!r}"
+
+
+def differ(a, b):
+    a, b = bytes(a), bytes(b)
+    if max(len(a), len(b)) <= 48:
+        return ""
+    k = next((i for i, (x, y) in enumerate(zip(a, b)) if x != y),
+             min(len(a), len(b)))
+    return f" (first difference at byte {k})"
 
 
 class Channel:
@@ -227,14 +253,16 @@ class Channel:
             return (f"the application did not get the connect marker: "
                     f"{bytes(self.app_read[:4])!r}")
         if bytes(self.accepted) != bytes(self.app_written):
-            return (f"terminal accepted {bytes(self.accepted)!r}, the "
-                    f"application wrote {bytes(self.app_written)!r}")
+            return (f"terminal accepted {brief(self.accepted)}, the "
+                    f"application wrote {brief(self.app_written)}"
+                    f"{differ(self.accepted, self.app_written)}")
         if self.rx_outstanding:
             return ("a chunk announced by the terminal was never "
                     "acknowledged")
         if bytes(self.app_read[1:]) != bytes(self.announced):
-            return (f"application read {bytes(self.app_read[1:])!r}, the "
-                    f"terminal announced {bytes(self.announced)!r}")
+            return (f"application read {brief(self.app_read[1:])}, the "
+                    f"terminal announced {brief(self.announced)}"
+                    f"{differ(self.app_read[1:], self.announced)}")
         return None
 
 
@@ -275,7 +303,8 @@ def _run(case, ec, term, dev, dev2):
 
     # idle cycles at the end, enough to drain what the applications wrote
     # (22 bytes per accepted chunk, a chunk every other cycle)
-    scripts = [list(case["cycles"]), list(case.get("cycles2") or [])]
+    scripts = [list(case["cycles"]) * case.get("repeat", 1),
+               list(case.get("cycles2") or [])]
     backlog = max(sum(len(c) for cyc in sc for c in cyc["app"] or [])
                   for sc in scripts)
     total = max(len(sc) for sc in scripts) + 8 + 3 * (backlog // 22 + 2)
